@@ -249,7 +249,7 @@ func (g *gctx) value(k kind, depth int) *Node {
 	case r < 92:
 		return g.callOf(k, depth-1)
 	default:
-		if k == kSmall || g.quoted {
+		if k == kSmall || g.quoted || (g.typedOnly && (k == kInt || k == kFloat || k == kUnix || k == kDur)) {
 			return g.dynamic(k, false)
 		}
 		return g.concat(k, depth-1)
@@ -304,7 +304,8 @@ func (g *gctx) callOf(k kind, depth int) *Node {
 	g.budget--
 	// user functions
 	// (never where the value controls output size: a body may multiply)
-	if len(g.defs) > 0 && k != kSmall && g.chance(35, "userCall") {
+	// (in a body: only where any text will do, a user function has no kind)
+	if len(g.defs) > 0 && k != kSmall && (!g.typedOnly || k == kAny || k == kWord || k == kBool) && g.chance(35, "userCall") {
 		if c := g.userCall(depth, false); c != nil {
 			return c
 		}
@@ -801,7 +802,7 @@ func (g *gctx) definitions(max int) []*Def {
 				d.Body = append(d.Body, key(g.keyFor(kAny)))
 				g.label("key-in-body")
 			default:
-				if g.chance(15, "bodyBackslash") && !(len(d.Body) > 0 && d.Body[len(d.Body)-1].K != kCall && d.Body[len(d.Body)-1].K != kArg && d.Body[len(d.Body)-1].K != kKey) {
+				if g.chance(25, "bodyBackslash") && !(len(d.Body) > 0 && d.Body[len(d.Body)-1].K != kCall && d.Body[len(d.Body)-1].K != kArg && d.Body[len(d.Body)-1].K != kKey) {
 					// literal text with a backslash (written \\\\ in the file). Never at
 					// the end of the body: whether a line ending in an escaped
 					// backslash continues is not documented
@@ -982,7 +983,7 @@ func (l *layout) file(defs []*Def) string {
 		// top-level pieces (no blank before the backslash: it would be text;
 		// the next line loses its leading blanks, so it must not start with one)
 		for i, n := range d.Body {
-			if i > 0 && l.g.chance(12, "topBreak") && !(n.K == kLit && strings.HasPrefix(n.S, " ")) {
+			if i > 0 && l.g.chance(20, "topBreak") && !(n.K == kLit && strings.HasPrefix(n.S, " ")) {
 				l.continuations++
 				l.topBreaks++
 				if i > 0 && d.Body[i-1].K == kRaw && strings.HasSuffix(d.Body[i-1].S, "\\") {
